@@ -123,3 +123,20 @@ Theorem C10_local_is_source : forall fuel m a b steps ai bi s, covers m a b ->
   ImpGen.imp_align_Local fuel a b m = GoSem.Ret (map ImpProofsD.step_n steps, ai, bi, s).
 Proof. exact ImpProofsF.imp_Local_ok. Qed.
 Print Assumptions C10_local_is_source.
+
+(* ---- the finding, on the translated source ----------------------------------------------------------------
+   The two witnesses of D7 run through Global and Local as translated from align/global.go and
+   align/local.go on this run: the translated functions themselves return the sub-optimal scores
+   (-6 where an alignment scoring -4 exists; 4 where one scoring 5 exists). *)
+From Bio.Proofs Require ImpProofsD.
+Example C10_global_refuted_on_source :
+  ImpGen.imp_align_Global 20 d7_global_a d7_global_b d7_global_m
+  = GoSem.Ret (map ImpProofsD.step_n [SIns; SIns; SIns; SMatch], (-6)%Z)
+  /\ score d7_global_m d7_global_a d7_global_b d7_global_al = Ok (-4)%Z
+  /\ consumes d7_global_al = (length d7_global_a, length d7_global_b).
+Proof. vm_compute. repeat split. Qed.
+
+Example C10_local_refuted_on_source :
+  (exists al ai bi, ImpGen.imp_align_Local 50 d7_local_a d7_local_b d7_local_m = GoSem.Ret (al, ai, bi, 4%Z))
+  /\ score d7_local_m d7_local_a d7_local_b d7_local_al = Ok 5%Z.
+Proof. split; [vm_compute; do 3 eexists; reflexivity | vm_compute; reflexivity]. Qed.
